@@ -27,6 +27,14 @@ def handle (j : Json) : R (List (String × Json)) := do
     let pa := Spec.partition p s
     let rp := Spec.replay p s
     let strs (l : List String) := Json.arr (l.map Json.str).toArray
+    -- vicinity clustering: activities of a cluster are reached by commuting from a parking place, which the feasibility
+    -- and replay specifications do not model; the partition specification (ids, counts, places) applies unchanged
+    let clustered := match spJ.getObjVal? "clustering" with | .ok v => !v.isNull | .error _ => false
+    if clustered then
+      return [("model", Json.null),
+              ("oracle", Json.mkObj [("partition", Json.bool pa.isEmpty)]),
+              ("info", Json.mkObj [("clustered", Json.bool true), ("partition", strs pa),
+                                   ("tours", jNat s.tours.length), ("unassigned", jNat s.unassigned.length)])]
     return [("model", Json.null),
             ("oracle", Json.mkObj [("feasible", Json.bool f.isEmpty), ("partition", Json.bool pa.isEmpty),
                                    ("replay", Json.bool rp.isEmpty)]),
